@@ -10,6 +10,7 @@ package objects
 import (
 	"bytes"
 	"compress/gzip"
+	"fmt"
 
 	"github.com/pkg/errors"
 
@@ -291,6 +292,16 @@ func (t *MessageContainer) MarshalTL(e *tl.Encoder) error {
 
 func (t *MessageContainer) UnmarshalTL(d *tl.Decoder) error {
 	count := int(d.PopInt())
+	rest, err := d.DumpWithoutRead()
+	if err != nil {
+		return err
+	}
+	// msg_id + seq_no + size is the least one message takes
+	const minMessageLen = tl.LongLen + tl.WordLen + tl.WordLen
+	if count < 0 || count > len(rest)/minMessageLen {
+		return fmt.Errorf("invalid messages count in container: %v", count)
+	}
+
 	arr := make([]*messages.Encrypted, count)
 	for i := 0; i < count; i++ {
 		msg := new(messages.Encrypted)
